@@ -6,18 +6,22 @@ VERUS_UNITS = {
     "V-cursors": "v_cursors",
     "V-adaptors": "v_adaptors",
     "V-lexer": "v_lexer",
+    "V-strslice": "v_strslice",
+    "V-index": "v_small:UNIT_INDEX",
+    "V-prec": "v_small:UNIT_PREC",
+    "V-debuginfo": "v_small:UNIT_DEBUGINFO",
 }
 
 PROPERTIES = {
-    "C01": {"verus": ["V-frame", "V-range"], "kani": ["K-number"]},
+    "C01": {"verus": ["V-frame", "V-range", "V-index", "V-prec"], "kani": ["K-number"]},
     "C05": {"verus": ["V-frame"], "kani": ["K-emit"]},
-    "C06": {"verus": ["V-frame", "V-vmproto", "V-range", "V-lexer", "V-cursors", "V-adaptors"], "kani": ["K-number", "K-emit", "K-strslice"]},
+    "C06": {"verus": ["V-frame", "V-vmproto", "V-range", "V-lexer", "V-cursors", "V-adaptors", "V-strslice", "V-index", "V-debuginfo"], "kani": ["K-number", "K-emit", "K-strslice"]},
     "C04": {"verus": ["V-vmproto"], "kani": []},
     "C07": {"verus": ["V-vmproto"], "kani": []},
     "C08": {"verus": ["V-vmproto"], "kani": []},
     "C09": {"verus": ["V-lexer"], "kani": []},
-    "C12": {"verus": ["V-vmproto"], "kani": []},
+    "C12": {"verus": ["V-vmproto", "V-debuginfo"], "kani": []},
     "C13": {"verus": ["V-range", "V-cursors", "V-adaptors"], "kani": []},
-    "C14": {"verus": [], "kani": ["K-number", "K-strslice"]},
-    "C15": {"verus": [], "kani": ["K-strslice"]},
+    "C14": {"verus": ["V-strslice"], "kani": ["K-number", "K-strslice"]},
+    "C15": {"verus": ["V-strslice"], "kani": ["K-strslice"]},
 }
